@@ -34,3 +34,19 @@ Proof.
   split; [exact Hf|]. eauto.
 Qed.
 Print Assumptions C17_uid_flows.
+
+(* translator obligations (lib/gen_statespace.py reads the structs, statics and mutable bindings of the
+   modelled code on every run): the code has the state the model represents and no other *)
+From Portus Require Import StateTie.
+From PortusGen Require Import StateSpace.
+From Coq Require Import String.
+Open Scope string_scope.
+Theorem C17_source_statics : impl_statics = model_statics.
+Proof. exact statics_tie. Qed.
+Print Assumptions C17_source_statics.
+Theorem C17_source_shared_state_datapath : nth 6 impl_shared_state_tokens "" = "src/lang/datapath.rs: AtomicU32".
+Proof. exact shared_state_lang_datapath. Qed.
+Print Assumptions C17_source_shared_state_datapath.
+Theorem C17_source_shared_state_lang_mod : nth 5 impl_shared_state_tokens "" = "src/lang/mod.rs: -".
+Proof. exact shared_state_lang_mod. Qed.
+Print Assumptions C17_source_shared_state_lang_mod.
